@@ -48,6 +48,34 @@ FLAG_CONTEXT = {
 }
 
 
+# GNU long options (a unique prefix abbreviates one); those that need an argument
+LONG_OPTIONS = (
+    "null",
+    "arg-file",
+    "delimiter",
+    "eof",
+    "replace",
+    "max-lines",
+    "max-args",
+    "open-tty",
+    "interactive",
+    "no-run-if-empty",
+    "max-chars",
+    "verbose",
+    "show-limits",
+    "exit",
+    "max-procs",
+    "process-slot-var",
+    "help",
+    "version",
+)
+LONG_WITH_ARG = frozenset(
+    {"arg-file", "delimiter", "max-args", "max-chars", "max-procs", "process-slot-var"}
+)
+# short options whose argument is optional and only ever attached
+SHORT_OPTIONAL_ARG = "il"
+
+
 def _skip_flags(
     tokens: list[str], flags_with_arg: frozenset, stop_at_double_dash: bool = False
 ) -> int:
@@ -66,17 +94,27 @@ def _skip_flags(
             i += 2
             continue
 
-        if len(token) > 2 and token[0] == "-" and token[1] != "-":
-            base_flag = token[:2]
-            if base_flag in flags_with_arg:
-                i += 1
-                continue
-
-        if "=" in token:
-            i += 1
+        if token.startswith("--"):
+            name, eq, _ = token[2:].partition("=")
+            names = [n for n in LONG_OPTIONS if n == name] or [
+                n for n in LONG_OPTIONS if n.startswith(name)
+            ]
+            i += 2 if (len(names) == 1 and names[0] in LONG_WITH_ARG and not eq) else 1
             continue
 
-        i += 1
+        # short cluster: an option with an argument takes the rest of the word
+        # or, when it is the last letter, the next word
+        k = 1
+        while (
+            k < len(token)
+            and "-" + token[k] not in flags_with_arg
+            and token[k] not in SHORT_OPTIONAL_ARG
+        ):
+            k += 1
+        if k == len(token) - 1 and token[k] not in SHORT_OPTIONAL_ARG:
+            i += 2
+        else:
+            i += 1
 
     return i
 
@@ -100,6 +138,10 @@ def classify(ctx: HandlerContext) -> Classification:
             return Classification("ask", description="xargs --interactive")
         if token.startswith("--open-tty"):
             return Classification("ask", description="xargs --open-tty")
+        if token.startswith("--") and len(token) > 3 and (
+            "--interactive".startswith(token) or "--open-tty".startswith(token)
+        ):
+            return Classification("ask", description=f"xargs {token}")
 
     # Find the inner command (skip xargs and its flags)
     inner_start = 1 + _skip_flags(tokens[1:], FLAGS_WITH_ARG, stop_at_double_dash=True)
@@ -110,6 +152,16 @@ def classify(ctx: HandlerContext) -> Classification:
     inner_tokens = tokens[inner_start:]
     if not inner_tokens:
         return Classification("ask", description="xargs (no command)")
+
+    # Without -I/-i/--replace the items read from stdin are appended as further
+    # arguments: judge the command with one (unknown) argument more
+    replaces = any(
+        t.startswith(("-I", "-i", "--replace", "--rep", "-J"))
+        or (t.startswith("-") and not t.startswith("--") and t.endswith("I"))
+        for t in tokens[1:inner_start]
+    )
+    if not replaces:
+        inner_tokens = inner_tokens + ["{}"]
 
     # Delegate to inner command check
     inner_cmd = " ".join(bash_quote(t) for t in inner_tokens)
